@@ -26,7 +26,7 @@ RULE = (
     ">= 2 histories, or a file with >= 3 digest lines carrying >= 2 different actions; distinct by canonical scenario hash."
 )
 ASSUMPTIONS = ["names contain no line breaks (control characters are outside the domain)"]
-BUDGET = {"quick": (220, 4), "thorough": (8000, 16)}
+BUDGET = {"quick": (220, 4), "thorough": (32000, 16)}
 REQUIRED = ["nested", "multi_action_file", "no_history", "sf_noroot", "sf_root", "deep_nesting"]
 
 CFG = {
